@@ -651,7 +651,7 @@ func ruleTokenOrder(c *Ctx) {
 		col    ssa.Value
 		length ssa.Value
 	}
-	n := 0
+	n, nCur := 0, 0
 	for _, f := range c.P.ModuleFuncs() {
 		if f.Blocks == nil {
 			continue
@@ -761,6 +761,72 @@ func ruleTokenOrder(c *Ctx) {
 			if !ok {
 				continue
 			}
+			// T12-CURSOR: the token is placed relative to a cursor carried round a loop (its offset mentions a phi of a
+			// loop header with coefficient 1): the token starts at or behind the cursor, and on every way back to the
+			// header that passes the token's construction the cursor is moved to or behind the token's end - so the
+			// next iteration's search cannot find its lexeme inside this one.
+			hl := lp.lc.expr(ha, 0)
+			for k, co := range hl.t {
+				phi, ok := lp.lc.leaf[k].(*ssa.Phi)
+				if !ok || co != 1 || !phi.Block().Dominates(a.block) || phi.Block() == a.block {
+					continue
+				}
+				hb := phi.Block()
+				isHeader := false
+				for _, pred := range hb.Preds {
+					if reachesBlock(hb, pred) {
+						isHeader = true
+					}
+				}
+				if !isHeader {
+					continue
+				}
+				nCur++
+				cur := newLin()
+				cur.t[k] = 1
+				g1 := hl.addScaled(cur, -1)
+				okStart := lp.prove(g1, a.block, nil, 0)
+				c.check(okStart, "T12-CURSOR", funcName(f), "a token starts at or behind the scan cursor", a.pos,
+					"offset - cursor = "+describeLin(lp.lc, g1)+" >= 0 is proved",
+					"a token placed relative to a loop-carried cursor is not provably at or behind it ("+describeLin(lp.lc, g1)+" >= 0)")
+				// the blocks of this iteration that lie behind the token's construction
+				after := map[*ssa.BasicBlock]bool{a.block: true}
+				for work := []*ssa.BasicBlock{a.block}; len(work) > 0; {
+					x := work[len(work)-1]
+					work = work[:len(work)-1]
+					for _, sx := range x.Succs {
+						if sx != hb && !after[sx] {
+							after[sx] = true
+							work = append(work, sx)
+						}
+					}
+				}
+				for i, pred := range hb.Preds {
+					if !reachesBlock(hb, pred) || !after[pred] || i >= len(phi.Edges) {
+						continue
+					}
+					g2 := lp.lc.expr(phi.Edges[i], 0).addScaled(hl, -1).addScaled(la, -1)
+					var hyps []lin
+					if !(a.block == pred || a.block.Dominates(pred)) {
+						// a way back that need not pass the token: judged only when the new cursor is one expression whatever
+						// the path (no merge of values inside the iteration); what held at the token still holds
+						merged := false
+						for k2 := range g2.t {
+							if p2, ok := lp.lc.leaf[k2].(*ssa.Phi); ok && p2.Block() != hb {
+								merged = true
+							}
+						}
+						if merged {
+							continue
+						}
+						hyps = lp.lc.condFacts(a.block)
+					}
+					okEnd := lp.prove(g2, pred, hyps, 0)
+					c.check(okEnd, "T12-CURSOR", funcName(f), "the scan cursor is moved behind every token of the iteration", a.pos,
+						"next cursor - offset - bytes = "+describeLin(lp.lc, g2)+" >= 0 is proved on the way back to the loop header at "+c.P.pos(lastInstr(pred).Pos()),
+						"on the way back to the loop header at "+c.P.pos(lastInstr(pred).Pos())+" the cursor for the next iteration is not provably at or behind the end of a token emitted in this one ("+describeLin(lp.lc, g2)+" >= 0): the next search starts inside this token's lexeme, and a later token whose text also occurs there is placed inside or before it - tokens out of order, overlapping")
+				}
+			}
 			for _, b := range order {
 				if a == b || !(a.block.Dominates(b.block)) || a.block == b.block {
 					continue
@@ -778,6 +844,7 @@ func ruleTokenOrder(c *Ctx) {
 			}
 		}
 	}
+	c.census("T12-CURSOR", "tokens placed relative to a loop-carried cursor", nCur, 0)
 	// no floor: when the tokens are built by a constructor helper that is handed the offset, or the search is moved into
 	// a helper with several returns, the pair is no longer visible in one function and the rule says nothing
 	c.census("T12-ORDER", "pairs of tokens placed by byte offsets into one text in one iteration", n, 0)
